@@ -80,6 +80,10 @@ func runC01(c *core.Ctx) {
 		exhaustiveTree(c, p.label, p.mk, p.k, 400000, func(m *KVMon[int, int]) { m.Map = true }, nil)
 		return
 	}
+	if h := c.Index - len(exhaustivePlans(c.Tier)); h >= 0 && h < hugeCases {
+		runHugeTree(c, h, hugeN(c.Tier), func(m *KVMon[int, int]) { m.Map = true })
+		return
+	}
 	kind := kvKinds[c.Index%len(kvKinds)]
 	if c.Index%len(kvKinds) >= 4 && (c.Index/len(kvKinds))%2 == 1 {
 		kind = kvKinds[(c.Index/len(kvKinds)/2)%3] // weight towards the three trees
